@@ -259,8 +259,9 @@ Theorem C17_check_verdict_permutation : forall doc doc',
 Proof. exact C17.CheckPerm.check_verdict_permutation. Qed.
 Print Assumptions C17_check_verdict_permutation.
 
-(** the guard on directive names is necessary, and nitrogql does not enforce it: known finding
-    `duplicate-directive-definition` *)
+(** for ARBITRARY permutations the guard on directive names is still necessary in the model: a permutation that
+    moves a built-in-positioned definition across a user definition of the same name changes the lookups (model
+    only — nitrogql appends the built-ins after the user document; see C17_check_verdict_source_permutation) *)
 Theorem C17_check_verdict_permutation_refuted :
   exists doc doc', Permutation doc doc' /\ NoDup (map C05.Model.tname (C17.CheckPerm.tdefs doc))
                    /\ C05.Model.check_doc doc = [] /\ C05.Model.check_doc doc' <> [].
@@ -281,8 +282,8 @@ Theorem C17_skeleton_shape : forall (pi : oracle) (o : hmap scfg) (doc : list it
 Proof. exact print_skeleton_shape. Qed.
 Print Assumptions C17_skeleton_shape.
 
-(** the full statement of verdict-permutation for the schema check, its refutation on the current code (a
-    directive defined twice is accepted), and the theorem under the computable guard [unique_names] *)
+(** the general statement under the computable guard [unique_names], and the refutation of the unguarded general
+    statement (arbitrary permutations incl. built-in-positioned definitions; model only) *)
 Theorem C17_check_verdict_permutation_partial : forall doc doc',
   C17.CheckPerm.unique_names doc = true -> Permutation doc doc' ->
   Permutation (C05.Model.check_doc doc) (C05.Model.check_doc doc')
@@ -304,3 +305,29 @@ Theorem C17_operation_check_schema_permutation : forall S S',
   forall D, C03.Model.check_operation_document S D = C03.Model.check_operation_document S' D.
 Proof. exact C17.OpPerm.check_operation_document_schema_permutation. Qed.
 Print Assumptions C17_operation_check_schema_permutation.
+
+(** verdict(pi(P)) = verdict(P) for the schema check AS NITROGQL RUNS IT (since 451006c): the user's definitions in
+    any order, the built-in definitions appended unchanged, unique type names — and NO guard on directive names:
+    a directive the user defines twice is rejected in every order, a user directive that redefines a built-in one
+    precedes it in every order *)
+Theorem C17_check_verdict_source_permutation : forall user user' builtins,
+  Permutation user user' ->
+  NoDup (map C05.Model.tname (C17.CheckPerm.tdefs (user ++ builtins))) -> C17.CheckPerm.user_positioned user ->
+  (C05.Model.check_doc (user ++ builtins) = [] <-> C05.Model.check_doc (user' ++ builtins) = []).
+Proof. exact C17.CheckPerm.check_verdict_source_permutation. Qed.
+Print Assumptions C17_check_verdict_source_permutation.
+
+(** … and the diagnostics are the same up to their order as soon as no user directive is defined twice *)
+Theorem C17_check_diagnostics_source_permutation : forall user user' builtins,
+  Permutation user user' ->
+  NoDup (map C05.Model.tname (C17.CheckPerm.tdefs (user ++ builtins))) -> C17.CheckPerm.user_positioned user ->
+  C17.CheckPerm.user_dup [] (user ++ builtins) = false ->
+  Permutation (C05.Model.check_doc (user ++ builtins)) (C05.Model.check_doc (user' ++ builtins)).
+Proof. exact C17.CheckPerm.check_doc_source_permutation. Qed.
+Print Assumptions C17_check_diagnostics_source_permutation.
+
+(** a directive defined twice by the user is reported in every arrangement *)
+Theorem C17_duplicate_user_directive_rejected : forall doc defs seen,
+  C17.CheckPerm.user_dup seen defs = true -> C05.Model.check_defs doc seen defs <> [].
+Proof. exact C17.CheckPerm.user_dup_nonempty. Qed.
+Print Assumptions C17_duplicate_user_directive_rejected.
